@@ -102,6 +102,13 @@ NOTES = {
  "C19-w13m1": "C19 stays silent at the quick budget; caught by C14's late-failure sub-check (a failing stage reported as success).",
  "C20-w13m2": "missed at first: weights rules had a level of at least 1. 15% now have level 0 with a suffix of 1 or 2; then caught (top level sums to 0%).",
  "C03-w13m1": "C03 stays silent (one schedule per case: the report is wrong in the same way each time it is wrong); caught by C06 (balance-valued: different output between runs).",
+ "C15-w14m2": "missed at first: every training journal with transactions knew at least two accounts. A new kind of training journal books inside one account only (transfers A -> A), so that for bookings on that account nothing is left to choose; my first oracle for it raised a false alarm on the unchanged tree (placeholder on both sides, one candidate: one side gets it, the other legitimately stays) and was corrected before it was committed; then caught (output-unparseable).",
+ "C12-w14m2": "missed at first: C12 called NormalizedPrices.Valuate with one amount (7). It is now called with 7, 0, 0.00, -3.5, 1e-8 and -0.123456789: it must fail exactly when Price fails and otherwise equal amount x price truncated to 8 decimals; then caught (Price and Valuate disagree, amount 0).",
+ "C20-w14m1": "missed at first: in the constant-price journals every transaction had one booking. 35% of the flow transactions now also carry a transfer between two portfolio accounts (either order); then caught (return-nonzero-without-price-change).",
+ "C14-w14m1": "no verdict at first (exit 2 from the driver's watchdog after 800 s): the change computes without end inside one transition (a power of ten with two billion digits), which the step and task budgets cannot see. C14's workers now run under a CPU-time guard (150 s of process CPU inside one simulated run stand for 'does not terminate'; CPU time, so a loaded machine does not inflate it); then caught (does-not-terminate:cpu-budget), confirmed by replay under the same guard.",
+ "C05-w14m1": "missed at first, by a fidelity gap of the instrumenter: the rewritten `for v := range ch` (and map range) declared the iteration variable inside the loop body, i.e. per iteration, while knut's go.mod (go 1.21) gives one variable shared by all iterations; a goroutine capturing it was therefore immune in the simulation. The instrumenter now reads the go directive and keeps one variable for all iterations when it is below 1.22; then caught by C05 (directive lost or duplicated) and C19 (census).",
+ "C05-w14m2": "no verdict at first (exit 2): errgroup.TryGo was not a task-creation site for the instrumenter, so the function ran outside the scheduler. TryGo is wrapped like Go now; then C05 stays silent at the quick budget (its journals are accepted ones and single-defect mutants in narrow trees) and C19 reports it (failing include swallowed: status depends on the schedule).",
+ "C16-w14m2": "missed at first: no run ever had a fault on standard output (reports were captured from an always-working stream). cmd.OutOrStdout() is now a fault point (the instrumenter wraps it): C16's stdout-fault sub-check fails every Write call of a ledger of several buffers in turn (short write with 1, 100 or all-but-one bytes accepted, EPIPE, ENOSPC; transient or for good) and demands that what was delivered is a prefix of the undisturbed ledger; then caught (stdout-not-a-prefix-after-write-fault: a fragment is sent twice).",
 }
 DROPPED = [
  "C04 (wave 7, first change): Builder.Build skips the day sort while days 'arrive in ascending order'; the same idea as C05-m2 (caught by C04, C05, C19).",
